@@ -35,7 +35,8 @@ MANIFEST = dict(
 
 IMPORTS = ['Coq.Lists.List', 'Coq.Bool.Bool', 'Coq.ZArith.ZArith', 'Coq.Strings.String', 'SV.SM.Store', 'SV.SM.StoreCert',
            'SV.SM.StoreCopy', 'SV.SM.StoreCopySrc', 'SV.SM.StoreCopyExport', 'SV.SM.KvAdd', 'SV.SM.KvAddFresh',
-           'SV.SM.OpPurity', 'SV.Gen.CopyCensus_gen', 'SV.Gen.CopyExportReads_gen', 'SV.Gen.C09OpCensus_gen', 'SV.Props.C09']
+           'SV.SM.OpPurity', 'SV.SM.CollapseCensus', 'SV.Gen.CopyCensus_gen', 'SV.Gen.CopyExportReads_gen',
+           'SV.Gen.C09OpCensus_gen', 'SV.Gen.C09Collapse_gen', 'SV.Props.C09']
 CORPUS = hc.VERIF / 'corpus' / 'C09'
 
 
@@ -818,7 +819,10 @@ def run(ck: Ck) -> None:
     from translate import c09_ops
     ok_o = ck.translate('C09OpCensus_gen', c09_ops.translate)
     oside = ck.extra.get('translated', {}).get('C09OpCensus_gen', {})
-    built = ok_t and ok_e and ok_o and ck.build(['Props/C09.vo'])
+    from translate import c09_collapse
+    ok_c = ck.translate('C09Collapse_gen', c09_collapse.translate)
+    cside = ck.extra.get('translated', {}).get('C09Collapse_gen', {})
+    built = ok_t and ok_e and ok_o and ok_c and ck.build(['Props/C09.vo'])
     if ok_t:
         ck.sample({'census_Side(field, kind, how, source expression)': side.get('census', {}).get('Side')})
     if built:
@@ -845,6 +849,11 @@ def run(ck: Ck) -> None:
             obs[f'ops_return_fresh:{fam}'] = f'ops_return_fresh op_census_{fam}'
             obs[f'inplace_ops_write_only_self:{fam}'] = f'inplace_ops_write_only_self op_census_{fam}'
         obs['op_census_size'] = 'Nat.leb 150 (List.length op_census_all) && Nat.eqb (List.length op_census_all) %d' % oside.get('n_rows', -1)
+        obs['collapse_never_writes_template'] = 'collapse_never_writes_template collapse_writes'
+        obs['collapse_only_copies_enter_target'] = 'collapse_only_copies_enter collapse_enters'
+        obs['collapse_copies_are_censused'] = ('collapse_copies_censused collapse_copies (List.map fst all_census) && '
+                                               'Nat.eqb (List.length collapse_copies) %d' % len(cside.get('copies', [])))
+        obs['collapse_census_size'] = 'Nat.leb 20 (List.length collapse_writes) && Nat.leb 10 (List.length collapse_enters)'
         obs['all_sources_present'] = 'Nat.eqb (List.length all_sources) %d && all_sources_match' % len(side.get('classes', []))
         obs['all_classes_present'] = 'Nat.eqb (List.length all_census) %d' % len(side.get('classes', []))
         res = ck.instance_obligations(IMPORTS, obs)
@@ -857,6 +866,10 @@ def run(ck: Ck) -> None:
             if detail:
                 ck.extra['census_offending_fields(not_covered, not_fresh, wrong_source, export_broken)'] = {
                     c: d for c, d in zip(side.get('classes', []), detail) if d.replace(' ', '') not in ('(nil,nil,nil,nil)', '([],[],[],[])')}
+            bad_cl = ck.coq_eval(IMPORTS, ['(collapse_template_sites collapse_writes, collapse_template_sites collapse_enters)'],
+                                 name='collapse_detail')
+            if bad_cl:
+                ck.extra['collapse_one_template_sites(writes, enters)'] = bad_cl[0]
             bad_ops = ck.coq_eval(IMPORTS, ['offending_ops op_census_all'], name='ops_detail')
             if bad_ops:
                 ck.extra['op_census_offending_rows'] = bad_ops[0]
@@ -907,6 +920,10 @@ def run(ck: Ck) -> None:
         ck.explain('instance:all_sources_present')
     if any_key('shared-mutable:', 'mutation-visible:'):
         ck.explain('certificate:export_ok')
+    if any_key('instance-collapse-changes-template:', 'instance-'):
+        ck.explain('instance:collapse_never_writes_template')
+        ck.explain('instance:collapse_only_copies_enter_target')
+        ck.explain('instance:collapse_copies_are_censused')
     if any_key('operand-changed:', 'operator-returns-operand:', 'op-census-row:'):
         for fam in ('Vec', 'Angle', 'Matrix'):
             ck.explain(f'instance:ops_store_nothing_to_operands:{fam}')
